@@ -10,7 +10,38 @@ VERIF = os.path.dirname(HERE)
 CHECKS = {}
 
 
+# sentences added when a check was extended (DESIGN.md 11.8)
+EXTRA = {
+    'C08': ' What reaches the filters is checked too: Options.tla models get_options (argparse actions over defaults '
+           'and arguments, legacy positional filters, the normalisation steps) and Trace_Options judges ~900 real '
+           'get_options(argv, defaults) calls per run (pattern sets given = pattern sets that reach build_filtering_func).',
+    'C09': ' Options.tla / OptionsMC: the normalisation pipeline of get_options is model-checked against the documented '
+           'meaning of the raw -u / -f / --layer / --all / --at-level / --only-level switches (every layer kind, match '
+           'relation and level) and bound to ~900 real get_options calls per run (Trace_Options).',
+    'C15': ' --usecompiled / -k on their way through get_options are judged by Trace_Options (Options.tla).',
+    'C20': ' DiGraphApi.tla models the DiGraph as an API history (add_nodes / add_neighbors / sccs taken fully or '
+           'partially, in any order, on one object; a memoising implementation is one of the kinds of the model): every '
+           'answer is judged against SccOracle for the graph at that moment; ~5 900 histories (~43 000 queries) on the '
+           'real class per quick run, the StaleCache counterexample of TLC is replayed on the real class.',
+    'C19': ' Threads.tla also covers threads that exist before the first test, low-level threads becoming known to '
+           'threading during a test (Adopt), renames and equal names; TLC-enumerated schedules with these actions and the '
+           'counterexamples of the deviation configs are replayed on the real runner.',
+    'C18': ' The gc debug flags are modelled as bits with a caller pre-state (overlapping / disjoint with -G), and '
+           '--gc-after-test with its analysis window inside stopTest is part of the option enumeration (GlobalState_gc.cfg).',
+    'C17': ' XmlChar(cp) is the XML 1.0 Char production over code points in TLA+; every C0 / DEL-C1 code point and every '
+           'boundary of the production is used in messages, tracebacks and names; import failures with filters that select '
+           'nothing else, layer failures, --repeat 2 and -j 2 are part of the --xml runs.',
+    'C14': ' Discovery.tla models --usecompiled (source preferred, one file per module, source-less modules, __init__.pyc '
+           'packages); trees carry real .pyc files; the listing is an observation next to the import log.',
+    'C06': ' Forced-schedule worlds have layers of increasing size; a names family compares the modes over look-alike '
+           'layer names and test ids with line-separator characters.',
+    'C02': ' Spawn failures of several errno classes, failures in the first --repeat iteration only and -D runs (known '
+           'finding) are part of the worlds; --color is an option of the core worlds.',
+}
+
+
 def add(pid, category, text, note, technique, design_ref, thorough=True):
+    text = text + EXTRA.get(pid, '')
     CHECKS[pid] = {
         'property_id': pid,
         'quick_cmd': './check %s --tier quick' % pid,
